@@ -706,7 +706,17 @@ pub fn gen_c20(prop: &str, tier: Tier, rng: &mut Rng, seed: u64, run: u64) -> Pl
     // in a quarter of the runs the inner objects talk back to their wrapper's terminal from inside
     // the calls the wrapper makes on them
     let feedback_p = if rng.chance(0.25) { 0.3 } else { 0.0 };
+    // in a sixth of the encoder runs the wrapper's own terminal also follows a state getter
+    let enc_follow = which == 1 && rng.chance(0.17);
     for _ in 0..rounds {
+        if enc_follow && rng.chance(0.4) {
+            if rng.chance(0.8) {
+                let t = st.next(rng);
+                plan.push("TF", &[wterm as i64, t, fb(rng.moderate_f32()), fb(rng.moderate_f32()), fb(rng.moderate_f32())]);
+            } else {
+                plan.push("TFN", &[wterm as i64]);
+            }
+        }
         if feedback_p > 0.0 && rng.chance(feedback_p) {
             let d = if rng.chance(0.8) { 0 } else { rng.below(ndev as u64) as usize };
             if matches!(specs[d], DevSpec::Act | DevSpec::Enc | DevSpec::Pid(..)) {
